@@ -686,6 +686,72 @@ def judge_pglform(inp, obs, lr):
     return None
 
 
+# ------------------------------------------------------------------------------------------------
+# array-level correspondence: the literal ND models of the vectorised code paths vs the arrays numpy returns
+# ------------------------------------------------------------------------------------------------
+def nd_enc(mats, shape, k):
+    return {"shape": list(shape) + [k, k], "data": [x for M in mats for r in M for x in r]}
+
+
+def gen_nd(rng, n):
+    for _ in range(n):
+        which = rng.choice(["irrep", "irrep", "so21", "gln"])
+        shape = rng.choice([[], [1], [2], [3], [2, 2], [1, 2], [2, 1, 2]])
+        cnt = int(np.prod(shape)) if shape else 1
+        if which == "gln":
+            k = rng.choice([1, 2, 2, 3])
+            mats = [C.rzinv(rng, "Q", k, 2, 2, F(1, 2)) for _ in range(cnt)]
+            yield {"which": which, "k": k, "shape": shape, "A": nd_enc(C.enc(mats, "Q"), shape, k),
+                   "Ai": nd_enc(C.enc([C.zinv(M) for M in mats], "Q"), shape, k)}
+        else:
+            mats = [rmat2(rng, "Q", rng.choice(["sl2", "zero", "gl2"])) for _ in range(cnt)]
+            yield {"which": which, "k": 2, "n": rng.choice([1, 2, 3, 4, 5, 6]), "shape": shape,
+                   "A": nd_enc(C.enc(mats, "Q"), shape, 2)}
+
+
+def _nd_arr(d):
+    return np.array([float(F(x)) for x in d["data"]]).reshape(d["shape"])
+
+
+def run_nd(inp):
+    A = _nd_arr(inp["A"])
+    if inp["which"] == "irrep":
+        R = lie.sl2_irrep(A, inp["n"])
+    elif inp["which"] == "so21":
+        R = lie.sl2_to_so21(A)
+    else:
+        R = lie.gln_adjoint(A, inv=_nd_arr(inp["Ai"]))
+    return {"R": tolist(R)}
+
+
+def lean_nd(inp, obs):
+    if inp["which"] == "irrep":
+        return [{"op": "c17.irrep_nd", "n": inp["n"], "A": inp["A"]}]
+    if inp["which"] == "so21":
+        return [{"op": "c17.so21_nd", "A": inp["A"]}]
+    return [{"op": "c17.gln_nd", "n": inp["k"], "A": inp["A"], "Ai": inp["Ai"]}]
+
+
+def judge_nd(inp, obs, lr):
+    tags0 = {"map": inp["which"], "rank": len(inp["shape"])}
+    if "exc" in obs:
+        return {"expected": "an array of images", "observed": obs, "tags": dict(tags0, exc=obs["exc"]), "property_failure": True}
+    r = lr[0]
+    if "err" in r:
+        return {"expected": "model answer", "observed": r, "tags": dict(tags0, driver_err=r["err"])}
+    if "object_dtype" in obs["R"]:
+        return {"expected": "numeric array", "observed": "object dtype", "tags": dict(tags0, object_dtype=True)}
+    R = toarr(obs["R"])
+    m = r["ok"]
+    if list(R.shape) != m["shape"]:
+        return {"expected": {"shape": m["shape"]}, "observed": list(R.shape), "tags": dict(tags0, site="shape")}
+    M = np.array([float(F(x)) for x in m["data"]]).reshape(m["shape"])
+    if not same(R, M, 1e-8):
+        return {"expected": "array-level model value", "observed": {"max_abs_diff": float(np.max(np.abs(R - M)))},
+                "tags": dict(tags0, site="values")}
+    return None
+
+
 # integer packagings: the same matrices as int ndarrays (int64 / int32), stacks of them, and Python int lists where the
 # entry point documents array-likes (hyperbolic.sl2_iso / Isometry.from_sl2); lie.* document `ndarray` arguments
 INT_MAPS = ["irrep", "so21", "sl2_iso", "from_sl2", "gln", "sln", "slr", "blk", "so31", "hom_irrep", "hom_so21", "hom_gln", "hom_sln"]
@@ -774,6 +840,10 @@ CLAUSES = [
     Clause("blocks_corr", "corr", gen_blocks, run_blocks, judge_blocks, lean=lean_blocks, site="lie.slc_to_slr/block_include",
            budget={"quick": 100, "thorough": 2500},
            what="slc_to_slr and block_include on single matrices and arrays, n = 1..6, direct and via lie.hom"),
+    Clause("array_nd_corr", "corr", gen_nd, run_nd, judge_nd, lean=lean_nd, site="lie.sl2_irrep/sl2_to_so21/gln_adjoint on arrays",
+           budget={"quick": 60, "thorough": 1500},
+           what="whole arrays (composite shapes of rank 0-3, size-1 axes) through the literal ND models of the vectorised code "
+                "(entry loops with array arithmetic, broadcasting @, tiling linear_matrix_action) vs the arrays numpy returns"),
     Clause("so31_corr", "corr", gen_so31, run_so31, judge_so31, lean=lean_so31, site="lie.sl2c_to_so31",
            budget={"quick": 40, "thorough": 1000},
            what="sl2c_to_so31 on SL(2,ℚ(i)) (incl. zero entries, real matrices, general invertible) vs the model over pairs of rationals; "
